@@ -227,12 +227,13 @@ def run(prog, ctx):
     # V5 booleans
     gb, sb = prog.fn("getBoolValueNum"), prog.fn("setBoolValueNum")
     ctx.touch(gb, sb)
-    grec, _ = conv.bool_recognition(gb, _get_label)
+    from rules.C09 import _get_consumer
+    grec, _ = conv.bool_recognition(gb, _get_label, _get_consumer)
     stored = set()
     for c in sb.calls("strdup"):
-        lit = c.call_args()[0].string_value() if c.call_args() else None
-        if lit in ("true", "false"):
-            stored.add(lit)
+        for x in (c.call_args()[0].walk() if c.call_args() else []):
+            if x.k == "StringLiteral" and x.string_value() in ("true", "false"):
+                stored.add(x.string_value())
     for lit, truth in (("true", True), ("false", False)):
         if lit not in stored:
             ctx.inconclusive("V5", "setter stores %r" % lit, sb.where, "canonical literal not found")
